@@ -108,7 +108,7 @@ class RevoluteModel:
         A = quat_to_mat(q[3:])
         return q[:3], A, u[:3], A @ u[3:]
 
-    def manifold_state(self, rng, t, phi, phidot, qnorm=1.0):
+    def manifold_state(self, rng, t, phi, phidot, qnorm=1.0, q_ind=None, u_ind=None):
         """system (q, u) with the joint closed at relative angle phi and rate phidot;
         the subsystem that has coordinates and comes last is the dependent one"""
         S = self.system
@@ -121,6 +121,10 @@ class RevoluteModel:
         si, mi = self.subs[ind], self.mots[ind]
         if getattr(si, "nq", 0):
             qi, ui, _, _ = gen.rigid_body_state(rng, unit=True)
+            if q_ind is not None:
+                qi = np.asarray(q_ind, dtype=float)
+            if u_ind is not None:
+                ui = np.asarray(u_ind, dtype=float)
             q[si.my_qDOF], u[si.my_uDOF] = qi, ui
         ri, Ai, vi, Omi = self.kin(si, mi, t, q[si.my_qDOF] if getattr(si, "nq", 0) else None, u[si.my_uDOF] if getattr(si, "nu", 0) else None)
         A_IJi = Ai @ self.AKJ[ind]
